@@ -293,6 +293,7 @@ pub fn eval_case(case: &Case, mode: &Mode, acc: &Acc) -> Vec<Violation> {
     }
     if mode.c03 && n_sent > 0 && n_non > 0 {
         acc.distinct_n(n_sent + n_non);
+        acc.fallback(|| json!({"grammar": g.short(), "inputs": inputs.len()}));
         if acc.want_sample() && n_sent > 3 {
             acc.sample(json!({"grammar": g.short(), "inputs": inputs.len(), "sentences": n_sent}));
         }
